@@ -223,6 +223,7 @@ J_Spurious(i) ==
        ForAll({n \in 1..Len(PktsTo(e, d)) : PktsTo(e, d)[n].t = PUBLISH}, LAMBDA n :
           LET q == PktsTo(e, d)[n] IN
           If(~(\/ (IsPubStep(i) /\ q.m = PubOf(i).m)
+               \/ (e.ev = "inline_subscribe" /\ e.a.dur_m # "" /\ q.m = e.a.dur_m)
                \/ (e.ev = "subscribe" /\ d = e.c /\ q.ret)
                \/ (\E r \in InflightOf(Pre(i), d) \cup InflightOf(e.st, d) : r.m = q.m)
                \/ (\E w \in ToSet(Pre(i).delayed) : w.m = q.m)
@@ -1003,8 +1004,12 @@ J_C40(i) ==
       \* a new inline subscription first receives the matching retained messages
       IF e.ev = "inline_subscribe" /\ e.err = "" THEN
          LET want == {r.m : r \in {x \in RetainedSet(pre) : Matches(e.a.t, x.t)}}
-             got  == {h.m : h \in {x \in Hooks(e) : x.h = "inline" /\ x.p = e.a.inline_id}} IN
-         ForAll(want \ got, LAMBDA m : Cmp("C40.inline-retained-missing", "inline", m, e.a.inline_id))
+             got  == {h.m : h \in {x \in Hooks(e) : x.h = "inline" /\ x.p = e.a.inline_id}} \ {e.a.dur_m} IN
+         \* a message published while the handler of the new subscription runs for the first time (the subscription has
+         \* begun to receive, so it is live), or right after Subscribe returned, reaches it
+         If(e.a.dur_m # "" /\ Matches(e.a.t, e.a.dur_t) /\ ~(\E x \in Hooks(e) : x.h = "inline" /\ x.p = e.a.inline_id /\ x.m = e.a.dur_m),
+            Cmp("C40.publication-during-retained-replay-missed", "inline", e.a.dur_m, e.a.inline_id))
+         \o ForAll(want \ got, LAMBDA m : Cmp("C40.inline-retained-missing", "inline", m, e.a.inline_id))
          \o ForAll(got \ want, LAMBDA m : Cmp("C40.inline-retained-unexpected", "inline", m, e.a.inline_id))
          \o If(~(\E s \in Subs(e.st) : s.kind = "inline" /\ s.id = e.a.inline_id /\ s.f = e.a.t), Cmp("C40.inline-subscribe-not-registered", "inline", JoinL(e.a.t), e.a.inline_id))
       ELSE <<>>,
